@@ -189,3 +189,13 @@ Example stale_cache_witness :
   sem tt (logical unit (fun _ _ => true) unit nat (fst s0) [Call tt; Write tt 0%nat]) = 0%nat.
 Proof. split; reflexivity. Qed.
 Print Assumptions stale_cache_witness.
+
+(* the two trusted hypotheses of history_independence / toggle_restore_neutral are satisfiable (by the
+   semantics that reads exactly the generated fields of the receiver), and with it the offending
+   method does go stale while a non-offending one does not: F6 on the generated table *)
+Example instance_hypotheses_satisfiable :
+  (forall m s1 s2, (forall f, In f (own_reads m) -> s1 f = s2 f) -> own_sem m s1 = own_sem m s2) /\
+  (forall m f, is_cached_key m = true -> In f (own_reads m) -> In (snd f) mutable_fields ->
+               In (snd f) (gen_reads (mname m))).
+Proof. exact (conj own_reads_sound own_gen_covers). Qed.
+Print Assumptions instance_hypotheses_satisfiable.
